@@ -179,11 +179,12 @@ Returns:
     None
         """
         self._solver = solver
-        #HACK: add NP attribute if NP provided
+        self._NP = None
+        #HACK: hold NP for the nested solver if NP provided
         if 'NP' in kwds:
             from mystic.abstract_solver import AbstractSolver
             if AbstractSolver in getattr(solver, 'mro', lambda:())():
-                solver.NP = kwds['NP']
+                self._NP = kwds['NP'] # (not on the solver class)
             else:
                 msg = "solver got an unexpected keyword argument 'NP'"
                 raise TypeError(msg)
@@ -213,7 +214,8 @@ Returns:
        #evalmon = Monitor()
        #maxiter = 1000
        #maxfun = 1e+6
-        NP = getattr(solver, 'NP', None) #HACK: if solver has NP, use it
+        NP = getattr(self, '_NP', None) #HACK: if NP was provided, use it
+        if NP is None: NP = getattr(solver, 'NP', None)
         solver = solver(self.nDim) if NP is None else solver(self.nDim, NP)
         solver.SetRandomInitialPoints() #FIXME: set population; will override
         if self._useStrictRange: #XXX: always, settable, or sync'd ?
